@@ -58,7 +58,7 @@ LexFrom(src, p, st, state, nested, num, parts) ==
                  ELSE LexFrom(src, p + 1, st, "raw", nested, 0, parts)
            [] state \in {"sq", "dq", "esc"} ->
                  LET q == IF state = "dq" THEN DQ ELSE SQ IN
-                 IF c = BS THEN LexFrom(src, p + 2, st, state, nested, 0, parts)
+                 IF c = BS THEN LexFrom(src, IF n = -1 THEN p + 1 ELSE p + 2, st, state, nested, 0, parts)
                  ELSE IF c = q THEN (IF n = q THEN LexFrom(src, p + 2, st, state, nested, 0, parts)
                                      ELSE LexFrom(src, p + 1, st, "raw", nested, 0, parts))
                  ELSE LexFrom(src, p + 1, st, state, nested, 0, parts)
@@ -70,7 +70,7 @@ LexFrom(src, p, st, state, nested, num, parts) ==
                  IF IsDigitC(c) THEN LexFrom(src, p + 1, st, "ph", nested, num * 10 + (c - 48), parts)
                  ELSE LexFrom(src, p, p, "raw", nested, 0, Append(parts, ArgPart(num)))
            [] state = "lc" ->
-                 IF c = BS THEN LexFrom(src, p + 2, st, "lc", nested, 0, parts)
+                 IF c = BS THEN LexFrom(src, IF n = -1 THEN p + 1 ELSE p + 2, st, "lc", nested, 0, parts)
                  ELSE IF c = NL \/ c = 13 THEN LexFrom(src, p + 1, st, "raw", nested, 0, parts)
                  ELSE LexFrom(src, p + 1, st, "lc", nested, 0, parts)
            [] OTHER ->   \* block comment, nesting counted
